@@ -68,12 +68,57 @@ theorem C19_backlog_shape (s : State) (h : Nat) (h0 : h ≠ 0) (hlt : h < s.ftip
   have h2 : ¬ h > s.ftip.height := by omega
   simp [backlog, h0, h1, h2, hb]
 
-/-- Full statements not yet proved in Lean; evaluated on every run on the real system by the
-oracles `c19Event`, `c19Backlog` and the subscriber replay in the driver. -/
-def C19_disconnected : Prop :=
-  ∀ (t : Tbl) (s : State) (h : Nat), s.log ≠ [] →
-    discReplay t [] s.log (s.rollBackTo h).2 = some (s.log.take (h + 1))
+theorem rollBack_out (h fuel : Nat) (log : List Nat) (fst : Nat) (ft : Node) (out : List Ntfn) :
+    (rollBack h fuel log fst ft out).2.2.2 = out ++ (rollBack h fuel log fst ft []).2.2.2 := by
+  induction fuel generalizing log fst ft out with
+  | zero => simp [rollBack]
+  | succ n ih =>
+    by_cases hgt : tipHeight log > h
+    · rw [C19_disconnected_step h n log fst ft out hgt, C19_disconnected_step h n log fst ft [] hgt]
+      rw [ih, ih _ _ _ ([] ++ _)]
+      simp
+    · simp [rollBack, hgt]
 
+theorem rollBack_replay (t : Tbl) (h fuel : Nat) (log : List Nat) (fst : Nat) (ft : Node)
+    (hf : log.length ≤ fuel + (h + 1)) :
+    discReplay t [] log (rollBack h fuel log fst ft []).2.2.2 = some (log.take (h + 1)) := by
+  induction fuel generalizing log fst ft with
+  | zero =>
+    simp only [rollBack, discReplay]
+    rw [List.take_of_length_le]; omega
+  | succ n ih =>
+    by_cases hgt : tipHeight log > h
+    · rw [C19_disconnected_step h n log fst ft [] hgt, rollBack_out]
+      have hlen : 2 ≤ log.length := by simp only [tipHeight] at hgt; omega
+      have hne : log ≠ [] := by intro e; simp [e] at hlen
+      have hne2 : log.dropLast ≠ [] := by
+        intro e; have := congrArg List.length e; simp at this; omega
+      have h1 : log.getLast? = some (tipId log) := by
+        simp only [tipId]; rw [List.getLast?_eq_some_getLast hne]; rfl
+      have h2 : log.dropLast.getLast? = some (tipId log.dropLast) := by
+        simp only [tipId]; rw [List.getLast?_eq_some_getLast hne2]; rfl
+      have h3 : log.length = tipHeight log + 1 := by simp only [tipHeight]; omega
+      simp only [List.nil_append, List.cons_append, discReplay, h1, h2, h3, beq_self_eq_true, Bool.and_self, ↓reduceIte]
+      rw [ih]
+      · rw [List.dropLast_eq_take, List.take_take]; congr 2; simp only [tipHeight] at hgt; omega
+      · simp; omega
+    · simp only [rollBack, hgt, ↓reduceIte, discReplay]
+      simp only [tipHeight] at hgt
+      rw [List.take_of_length_le]; omega
+
+/-- **Disconnected events, every state, every target height**: the events a rollback emits,
+followed one by one on the chain as it was, each name the then-current tip, carry its height
+and the header directly below it, and lead exactly to the chain the store holds afterwards:
+one event per removed header, highest first, nothing else.  (`discReplay` is the predicate the
+driver evaluates on the real system's notifications.) -/
+theorem C19_disconnected (t : Tbl) (s : State) (h : Nat) :
+    discReplay t [] s.log (s.rollBackTo h).2 = some (s.rollBackTo h).1.log := by
+  rw [rollBackTo_log]
+  simp only [State.rollBackTo]
+  exact rollBack_replay t h s.log.length s.log s.fst s.ftip (by omega)
+
+/-- Full statement not yet proved in Lean; evaluated on every run on the real system by the
+subscriber replay in the driver (and `c19Backlog`). -/
 def C19_replay : Prop :=
   ∀ (c : Cfg) (peers : List Peer) (es es' : List Ev) (h : Nat), 1 ≤ c.win → 0 < h →
     let s := run c (init c peers) es
